@@ -501,6 +501,18 @@ fn seq_case(line: &str) -> String {
         let pre_c = w.cold.snapshot();
         let pre_h = w.hot.as_ref().map(|h| h.snapshot());
         let r = std::panic::catch_unwind(std::panic::AssertUnwindSafe(|| run_op(&mut w, &name, flag, dry, variant)));
+        // an operation that failed may leave packer threads behind that still write a pack: wait
+        // until the log is quiet so that a late write is attributed to the operation that caused it
+        if !matches!(r, Ok(Ok(()))) {
+            let len = |w: &World| w.rec_cold.log.lock().unwrap().len() + w.rec_hot.as_ref().map_or(0, |h| h.log.lock().unwrap().len());
+            let mut last = len(&w);
+            let mut stable = 0;
+            for _ in 0..80 {
+                std::thread::sleep(std::time::Duration::from_millis(20));
+                let n = len(&w);
+                if n == last { stable += 1; if stable >= 3 { break; } } else { stable = 0; last = n; }
+            }
+        }
         let mut cls = BTreeMap::new();
         let post_c = w.cold.snapshot();
         let part = if hotcold { "cold." } else { "" };
